@@ -118,8 +118,9 @@ class Analysis:
     }
 
     def __init__(self, view, arg_intervals=None, summaries=None, ret_len=None, ret_discr=None, forced=None,
-                 ret_interval=None, canonical_args=False):
+                 ret_interval=None, canonical_args=False, ret_paths=None):
         self.v = view
+        self.ret_paths = ret_paths  # callback: (callee key, call terminator, analysis, state) -> {field path: interval} of a returned tuple
         # assume C04 for Uint arguments: their top limb is <= MASK (never set by R-CANON, which proves C04)
         self.top_limb = None
         if canonical_args and view.cfg is not None and view.cfg[1] > 0:
@@ -1067,6 +1068,11 @@ class Analysis:
             dv = self.ret_discr(name, t, self, st)
             if dv is not None:
                 paths[(("discr",),)] = dv
+        elif self.ret_paths is not None and name in self.v.prog.bodies and rng is None \
+                and self.v.local_ty(d)["k"] == "tuple":
+            rp = self.ret_paths(name, t, self, st)
+            if rp:
+                paths.update(rp)
         elif name in ("core::slice::<impl [T]>::split_at", "core::slice::<impl [T]>::split_at_mut") \
                 and len(args) == 2 and a0_local is not None:
             mid, _ = self.eval_operand(st, args[1])
@@ -1463,6 +1469,21 @@ class Analysis:
             iv = st.iv.get(0, self.rng[0])
             out = iv if out is None else join(out, iv)
         return out
+
+    def return_paths(self):
+        """{field path: interval} of the tuple / struct this function returns: scalar fields whose interval is known
+        on every return path."""
+        out = None
+        for b in self.v.return_blocks():
+            st = self.state_before_term(b)
+            if st is None:
+                continue
+            cur = {k[2]: iv for k, iv in st.iv.items() if isinstance(k, tuple) and k[0] == "pl" and k[1] == 0}
+            if out is None:
+                out = cur
+            else:
+                out = {p_: join(out[p_], cur[p_]) for p_ in out if p_ in cur}
+        return out or {}
 
     def return_discr(self):
         """Interval of the discriminant of the enum value this function returns (None if unknown)."""
